@@ -405,10 +405,10 @@ class MinErrorFlow():
                 # edge_subset = edge_subset[:30]        
 
                 # Getting all the different 'flow_attr' values in the corrected graph
-                ub_different_flow_values = len(set(
-                    corrected_graph[u][v].get(self.flow_attr, 0)
-                    for (u, v) in edge_subset
-                ))
+                # (counted on the internal graph, over the values the first solve gave to exactly the edges of edge_subset:
+                # in node mode the corrected graph returned to the caller is condensed, and edges without a flow value
+                # carry solver values too)
+                ub_different_flow_values = len(set(self.edge_sol[(u, v)] for (u, v) in edge_subset))
 
                 utils.logger.info(f"{__name__}: re-solving now by minimizing the number of different flow values within 1 + epsilon tolerance to the objective value, i.e. <=(1+{self.different_flow_values_epsilon})*{objective_value}")
                 self._create_solver()
